@@ -33,6 +33,7 @@ class PayloadEvent(BaseEvent):
     nested: dict = {'a': [1, 2, {'b': None}], 'ü': {'k': [True, 1.5]}}
     when: datetime.datetime = datetime.datetime(2024, 2, 29, 23, 59, 59, 123456, tzinfo=datetime.timezone.utc)
     items: list = [[], {}, 'x']
+    maybe: int | None = 3          # set to None explicitly by the template: must come back as None, not as the default
 
 
 def t_wal(ctx):
@@ -121,7 +122,7 @@ def t_wal(ctx):
         async def main():
             m = ctx.main
             p = m.dispatch(a, ctx.ev(P, 'P1', event_timeout=30.0))
-            q = m.dispatch(a, ctx.ev(PayloadEvent, 'Q1', event_timeout=30.0, extra_field={'x': [1, 'ü']}))
+            q = m.dispatch(a, ctx.ev(PayloadEvent, 'Q1', event_timeout=None, extra_field={'x': [1, 'ü']}, maybe=None, extra_none=None))
             if ctx.cfg.get('unserialisable'):
                 u = m.dispatch(a, ctx.ev(PayloadEvent, 'U1', event_timeout=30.0, blob=object()))
             await m.wait(p)
@@ -191,7 +192,8 @@ def t_wal(ctx):
                 same = same and pth == list(ev.event_path)[: len(pth)] and ctx.buses[bn].name in pth
                 if isinstance(ev, PayloadEvent):
                     same = same and back.text == ev.text and back.nested == ev.nested and back.when == ev.when and back.items == ev.items \
-                        and obj.get('extra_field') == {'x': [1, 'ü']}
+                        and obj.get('extra_field') == {'x': [1, 'ü']} and back.maybe is None and back.event_timeout is None \
+                        and 'extra_none' in obj and obj['extra_none'] is None
                     ctx.witness('payload round-trip')
                 ctx.check('C17.line_faithful', same, bus=bn, ev=lab)
             except Exception as ex:  # noqa
